@@ -82,6 +82,11 @@ CHECKS = {
          "Runs the real server and, for views of 0-12 messages with UID gaps, issues FETCH/STORE/COPY/MOVE/SEARCH/UID EXPUNGE (sequence and UID forms) with generated sets whose numbers include 0, n+1, 2^31+-1, 2^32+-1, 2^32+k, 2^63+-1, 2^64+k, 10^30; the messages actually affected (rows returned, flags set, messages copied/moved/expunged, search results) must equal what an independent resolver computes, an invalid sequence number must give BAD and leave source and destination unchanged. Thorough adds all sets of <=2 ranges over {1..n+2,*} for n<=4.",
          "Trusts the resolver's reading of RFC 3501 (the n:* case above the highest UID is not judged, as the property says); numbers outside nz-number in UID sets may be refused or resolved mathematically.",
          "DESIGN.md §4 C16"),
+ "C12": ("exploration",
+         "crash/hang monitor over a child process plus strict reader of the produced IMAP lists and comparison with the generator's MIME tree",
+         "Inputs: generated MIME trees, mutations of them, token soup, header-field edge cases, random bytes, nesting to 1500 (thorough 20000) levels, very wide multiparts, 1 MiB header lines, 50000 header fields, address-list soup. A child process runs imap.NewParsedMessage, rfc822.Parse/Walk/Part and rfc5322.ParseAddressList per input and logs BEGIN/RESULT; the parent decides: no death, no hang; ENVELOPE/BODY/BODYSTRUCTURE read as strict parenthesised lists (balanced, legal quoted strings and literals, single spaces) with ENVELOPE and body arities; every walked part inside the message and inside its parent's body; for generated messages types, parameters, sizes, line counts and nesting equal the tree.",
+         "An empty list where the grammar wants NIL and NIL media types for garbage Content-Type values are tolerated (still well-formed lists). Non-termination is only reported after the single input failed to finish within 60 s alone in a fresh process.",
+         "DESIGN.md §4 C12"),
  "C13": ("exploration",
          "wire-level relational monitor: generated MIME messages with section bytes known by construction; every FETCH relation of the property checked against the generator's bytes",
          "APPENDs generated MIME trees (multipart / message-rfc822 / leaf parts, nesting <= 4, folded headers, CRLF and LF, 8-bit data, a leaf across the store's 256 KiB block edge) to the real server and checks on the wire: BODY[] = appended bytes + one server ID line, RFC822 = BODY[], RFC822.SIZE, HEADER+TEXT, every BODY[p] / [p.MIME] / [p.HEADER] / [p.TEXT], partials with o,n in {0,1,len-1,len,len+1,2^31,2^63-1}, HEADER.FIELDS / .NOT partition, literal framing. Quick ~700 messages / 15k fetches.",
